@@ -171,7 +171,7 @@ def _idempotence_oracle(name, doc, out, exc, kw):
 
 
 _mk("C07", "idempotence", ("structural", "clipped", "cascade", "gradients", "stroked"), _idempotence_oracle, "pass 1 vs pass 2 vs pass 3 byte for byte at ndigits 3, 0 (2 where opacities occur), 6; checkpicosvg() == ()",
-    pinned=("opacity_group_loses_sibling", "zero_opacity_outer_group", "defs_order_unstable", "clippath_written_inside_an_opacity_group", "opacity_group_with_only_a_stroked_line", "vertex_a_hair_off_the_subpath_start"))
+    pinned=("opacity_group_loses_sibling", "zero_opacity_outer_group", "defs_order_unstable", "clippath_written_inside_an_opacity_group", "opacity_group_with_only_a_stroked_line", "vertex_a_hair_off_the_subpath_start", "no_viewbox_gradient_under_transform"))
 
 
 def _reference_oracle(name, doc, out, exc, kw):
